@@ -518,7 +518,7 @@ pub fn run(ctx: &RunCtx) -> i32 {
     let secrets = secrets(ctx.seed);
     let n_uploads = ctx.tier.sz(1000, 100_000);
     let per = 4u64;
-    let total = par_run(ctx.workers, n_uploads.div_ceil(per), |j, r| {
+    let mut total = par_run(ctx.workers, n_uploads.div_ceil(per), |j, r| {
         let rt = new_runtime();
         let mut g = Rng::new(derive_seed(ctx.seed, "C08", j));
         for i in 0..per {
@@ -542,11 +542,16 @@ pub fn run(ctx: &RunCtx) -> i32 {
             r.sample("upload", || json!({"uri": u.req.uri, "chunk_sizes": u.chunks.iter().map(Vec::len).collect::<Vec<_>>(), "encoded_len": u.req.body.len()}));
         }
     });
+    // transport faults (DESIGN 9.2): the body fails in transit instead of yielding frame k
+    total.merge(crate::monitor::c09::transport_fault_leg(ctx, "C08", &["aws-chunked"], ctx.tier.sz(150, 6000)));
     finish(ctx, &meta, &total)
 }
 
 pub fn replay(v: &Value) -> i32 {
     let w = &v["witness"];
+    if w["kind"] == "transport-fault" {
+        return super::replay_verdict("C08", &crate::engine::replay_transport_fault("C08", w));
+    }
     let mut r = Report::new();
     let rt = new_runtime();
     let case: Case = serde_json::from_value(w["case"].clone()).unwrap_or_else(|e| harness_error(&format!("bad case: {e}")));
